@@ -58,15 +58,9 @@ Example C05_example_accepted :
   /\ exists bs0 t0, pass1 Units.py_lower c05_example = P1Ok bs0 t0 /\ List.length (hd [] bs0) = 2%nat.
 Proof. split; [vm_compute; reflexivity|]. vm_compute. eexists _, _. split; reflexivity. Qed.
 
-(** NOT proved here (kept visible; covered by the correspondence suite and the
-    oracle only):  C05_nodes_exactly_once - every Ingredient / Step occurrence
-    written in [p] occurs exactly once OUTSIDE references in [bs], and the
-    deleted roots are exactly the folded definitions, each still present
-    inside the tree that used it.  This needs the "uses complete" invariant of
-    the full pointer-based simulation (DESIGN.md Appendix C): the theorem
-    above cannot by itself exclude that a deleted root's single use site was
-    not found by the substitution.  What it does exclude: any change to, or
-    reordering or duplication of, the surviving trees. *)
+(** The occurrence-count clause (every written ingredient / step exactly once outside references; folding only
+    moves the folded definition's nodes to its use site) is Props/C05sym.v, C05_nodes_exactly_once, a corollary of the
+    full refinement compile_ast = sym_compile (Props/C01ref.v). *)
 
 Print Assumptions C05_substitution_invisible.
 Print Assumptions C05_conservation.
